@@ -298,6 +298,8 @@ def evaluate__substring(self: XPathFunction, context: ta.ContextType = None) -> 
     try:
         start = self.get_argument(context, index=1, required=True)
         if math.isnan(start) or math.isinf(start):
+            if len(self) == 2 and start < 0:
+                return item  # from -INF: the whole string
             return ''
     except TypeError:
         if isinstance(context, XPathSchemaContext):
